@@ -9,6 +9,9 @@ after).  These are the runtime oracles; none of them runs the search model:
  (iii) not provable ⇒ facts after = facts before;  no undo frame is left open      (`restored`)
  (iv)  DFS on a consistent-Horn KB: the goal has a derivation whose sub-goal nesting is
        ≤ max_depth ⇒ provable                                                     (`complete`)
+       — a theorem of the model for KBs without `Integer` condition literals: `C09.dfs_complete_oracle`
+ (iv-b) DFS on an all-conjunctive KB with conflicting assignments: derivation tree within
+       max_depth AND goal true in a forward-reachable store ⇒ provable            (`completeInconsistent`)
 -/
 namespace C09
 
@@ -75,6 +78,12 @@ def consistent (asg : List (Nat × Val)) : Bool :=
 def isHorn (kb : List Rule) (before : Facts) : Bool :=
   kb.all (fun r => isConj r.cond) && consistent (allAssignments kb before)
 
+/-- no condition literal is changed by the goal-pattern round trip (`reparse`), i.e. no rule
+condition carries an `Integer` literal (finding F-C09b is about exactly those); part of the domain
+of the completeness THEOREM — the runtime oracle (iv) below does not exclude them -/
+def noIntLit (kb : List Rule) : Bool :=
+  kb.all fun r => (condAtoms r.cond).all fun a => reparse a == a
+
 def concludes (r : Rule) (f : Nat) (v : Val) : Bool := r.acts.any (fun e => e.1 == f && e.2 == v)
 
 /-- `levels k`: the `(field, value)` pairs derivable by a derivation whose sub-goal nesting is `< k`
@@ -98,6 +107,32 @@ def completeApplies (kb : List Rule) (before : Facts) (goal : Atom) : Bool :=
 
 def complete (kb : List Rule) (before : Facts) (maxDepth : Nat) (goal : Atom) (provable : Bool) : Bool :=
   !(completeApplies kb before goal && derivableIn kb (dataOf before) maxDepth goal) || provable
+
+/-! ### (iv-b) the same clause outside the consistent fragment (interference, finding F-C09e)
+
+When two assignments give one field different values a syntactic derivation tree need not be
+executable (a rule on the way may overwrite a premise proven earlier, or an initial fact), so the
+tree alone does not oblige the search.  The clause asks for more: the knowledge base is
+all-conjunctive with no `Integer` condition literal, the goal has a derivation tree within
+`max_depth`, AND the goal comparison is true in some forward-reachable store (explicit search of
+clause (ii)); then DFS must report it provable.  Every failure of this clause is an order /
+overwrite interference the search does not recover from (`C09.dfs_complete_needs_consistency`). -/
+
+def interferenceApplies (kb : List Rule) (before : Facts) (goal : Atom) : Bool :=
+  goal.op == .eq && kb.all (fun r => isConj r.cond) && noIntLit kb &&
+    !consistent (allAssignments kb before)
+
+/-- the goal comparison is true in some store the explicit forward search visited -/
+def goalReachable (nf : Nat) (kb : List Rule) (before : Facts) (goal : Atom) : Bool :=
+  (reachSet nf kb (rowOf nf (dataOf before))).1.any fun row => evalAtom (rowData row) goal
+
+def interferenceClause (nf : Nat) (kb : List Rule) (before : Facts) (maxDepth : Nat) (goal : Atom) : Bool :=
+  interferenceApplies kb before goal && derivableIn kb (dataOf before) maxDepth goal &&
+    goalReachable nf kb before goal
+
+def completeInconsistent (nf : Nat) (kb : List Rule) (before : Facts) (maxDepth : Nat) (goal : Atom)
+    (provable : Bool) : Bool :=
+  !interferenceClause nf kb before maxDepth goal || provable
 
 /-- smallest `k ≤ bound` with the goal in level `k` (for the evidence histogram) -/
 def levelOf (kb : List Rule) (d0 : Data) (goal : Atom) (bound : Nat) : Option Nat :=
